@@ -34,13 +34,22 @@ for i in range(S.budget):
     where = {'keys': keys, 'vals': vals, 'xlo': xlo, 'xhi': xhi}
     lo, hi = keys[0], keys[-1]
     for k, v in zip(keys, vals):
-        if d[k] != v:
-            S.violation('C18:hit', f'table[{k}] = {d[k]} but the stored value is {v}', input=where)
+        try:
+            got_k = d[k]
+        except Exception as e:      # a stored key must be found, whatever the extrapolation flags
+            S.violation('C18:hit:raise', f'table[{k}] (a stored key) raised {type(e).__name__}: {e}', input=dict(where, q=k))
+            continue
+        if got_k != v:
+            S.violation('C18:hit', f'table[{k}] = {got_k} but the stored value is {v}', input=dict(where, q=k))
     j = rng.randrange(n - 1)
     q = keys[j] + (keys[j + 1] - keys[j]) * rng.uniform(0.01, 0.99)
     if keys[j] < q < keys[j + 1]:
         want = line(keys[j], vals[j], keys[j + 1], vals[j + 1], q)
-        got = d[q]
+        try:
+            got = d[q]
+        except Exception as e:
+            S.violation('C18:interior:raise', f'table[{q}] (between two stored keys) raised {type(e).__name__}: {e}', input=dict(where, q=q))
+            continue
         if got != want and abs(got - want) > 1e-12 * max(abs(got), abs(want), 1e-300):
             S.violation('C18:interior', f'table[{q}] = {got}, straight line between neighbours gives {want}', input=where)
         if not (min(vals[j], vals[j + 1]) - 1e-9 <= got <= max(vals[j], vals[j + 1]) + 1e-9):
